@@ -219,14 +219,40 @@ func (g *cfGen) leaf1(chain []cfFrame) *cfNode {
 			labelled = append(labelled, f)
 		}
 	}
-	switch x := g.r.Intn(20); {
-	case x < 5 && inBreakable:
+	// weights: break 5 (inside a breakable statement), continue 5 (inside a loop), return 1,
+	// callee that recovers 2, literal that recovers its own panic 1, mark 6
+	type choice struct {
+		kind string
+		w    int
+	}
+	choices := []choice{{"return", 1}, {"callrec", 2}, {"panicrec", 1}, {"mark", 6}}
+	if inBreakable {
+		choices = append(choices, choice{"break", 5})
+	}
+	if inLoop {
+		choices = append(choices, choice{"continue", 5})
+	}
+	total := 0
+	for _, c := range choices {
+		total += c.w
+	}
+	x := g.r.Intn(total)
+	kind := "mark"
+	for _, c := range choices {
+		if x < c.w {
+			kind = c.kind
+			break
+		}
+		x -= c.w
+	}
+	switch kind {
+	case "break":
 		n := &cfNode{kind: "break", id: g.id(), cond: g.cond(chain)}
 		if g.r.Intn(3) == 0 {
 			n.target = labelled[g.r.Intn(len(labelled))].id
 		}
 		return n
-	case x < 10 && inLoop:
+	case "continue":
 		n := &cfNode{kind: "continue", id: g.id(), cond: g.cond(chain)}
 		if g.r.Intn(3) == 0 {
 			var loops []cfFrame
@@ -238,11 +264,11 @@ func (g *cfGen) leaf1(chain []cfFrame) *cfNode {
 			n.target = loops[g.r.Intn(len(loops))].id
 		}
 		return n
-	case x >= 10 && x < 11:
+	case "return":
 		return &cfNode{kind: "return", id: g.id(), cond: g.r.Pick([]string{g.cond(chain), "z == 0"})}
-	case x < 13:
+	case "callrec":
 		return &cfNode{kind: "callrec", id: g.id()}
-	case x < 14:
+	case "panicrec":
 		return &cfNode{kind: "panicrec", id: g.id(), cond: g.cond(chain)}
 	}
 	return &cfNode{kind: "mark", id: g.id()}
@@ -694,7 +720,11 @@ func controlFlowStream(c *hx.Ctx, n, shrinkBudget int) error {
 				nest++
 			}
 		})
-		if jumps == 0 || nest < 2 {
+		size := 0
+		cs.walk(func(*cfNode) { size++ })
+		if jumps == 0 || nest < 2 || size > 70 {
+			// (a function with more than 256 distinct string constants is beyond a documented limit
+			// of the compiler: every mark is one)
 			skipped++
 			continue
 		}
